@@ -14,7 +14,7 @@ IMPORTS = "Factory.Model Factory.Scenario Factory.Oracle"
 def scn_line(s):
     h = ",".join(f"{k}:{v}" for k, v in sorted(s.get("hash", {}).items())) or "-"
     rl = s.get("rl") or "-"
-    head = f"{s['router']} {s['queue']} {s['n']} {s['disc']} {h} {rl}" + (f" dms:{s['dms']}" if s.get("dms") else "")
+    head = f"{s['router']} {s['queue']} {s['n']} {s['disc']} {h} {rl}" + (f" dmsk:{s['dmsk']}" if s.get("dmsk") else (f" dms:{s['dms']}" if s.get("dms") else ""))
     return head + " ; " + " ; ".join(" ".join(str(x) for x in op) for op in s["ops"])
 
 
@@ -33,6 +33,8 @@ def parse_scn_line(line):
            "rl": "" if c[5] == "-" else c[5], "ops": ops}
     if len(c) > 6 and c[6].startswith("dms:"):
         out["dms"] = int(c[6][4:])
+    if len(c) > 6 and c[6].startswith("dmsk:"):
+        out["dmsk"] = int(c[6][5:])
     return out
 
 
@@ -431,6 +433,50 @@ def gen_long_scenario(rng):
     if rng.random() < 0.6:
         s["dms"] = rng.choice([3, 7])
     return s
+
+
+def oracle_only(s):
+    """scenarios whose behaviour the model does not carry (a dead man's switch that KILLS stuck workers): the
+    implementation's history is judged by the oracles alone, there is no view comparison"""
+    return bool(s.get("dmsk")) or any(op[0] == "ud" and str(op[1]).startswith("dmsk:") for op in s["ops"])
+
+
+def gen_stuck_scenario(rng):
+    """a dead man's switch with kill_worker = true: a worker that is busy (its gate stays closed) when a ping goes
+    out and still busy `timeout` seconds later is killed by the factory; its running job is lost with it, the
+    replacement inherits the queue (and is pinged at once, so a busy replacement is killed again later)."""
+    router = rng.choice(["kp", "rr", "q", "sq", "cu"])
+    n = rng.choice([1, 1, 2])
+    keys = rng.sample(range(0, 20), rng.choice([1, 2, 3]))
+    h = {k: rng.choice([0, 1, 2, 3]) for k in keys} if router == "cu" else {}
+    ops, jid = [], 0
+    def d():
+        nonlocal jid
+        jid += 1
+        ops.append(["d", jid, rng.choice(keys), "-", rng.choice([0, 1])])
+    for _ in range(rng.choice([2, 3, 5])):
+        d()
+    ops.append(["t", 11])
+    for _ in range(rng.choice([1, 2, 3])):
+        ops.append(["t", rng.choice([2, 4])])
+        if rng.random() < 0.5:
+            d()
+        if rng.random() < 0.4:
+            ops.append(["g", rng.randrange(0, n)])
+        if rng.random() < 0.2:
+            ops.append(["q"])
+    if rng.random() < 0.3:
+        ops.append(["ud", "dms:off"])
+    for _ in range(4):
+        for w in range(n):
+            ops.append(["g", w])
+    if rng.random() < 0.4:
+        ops.append(["stop"])
+        for w in range(n):
+            ops.append(["g", w])
+    ops.append(["q"])
+    return {"router": router, "queue": rng.choice(["d", "p"]), "n": n, "disc": rng.choice(["none", "none", "new:2", "old:2"]),
+            "hash": h, "rl": "", "dmsk": 3, "ops": ops[:80]}
 
 
 def gen_empty_pool_scenario(rng):
